@@ -739,6 +739,8 @@ def one_run(case, name):
         try:
             if case.get('kind') == 'kw':
                 recv, fname, args, kwargs, value, post = setup_kw(case)
+                if case.get('fv') is not None:  # an explicitly given falsy value (None, False, 0, '', [], {})
+                    value = case['fv']['value']
                 kwargs = dict(kwargs)
                 if name == 'old':
                     kwargs[case['okw']] = value
